@@ -14,6 +14,21 @@ def runComposeOps (z : Zip) : List Char → CMsg → List String → String
     | .ok m' => runComposeOps z ops m' acc
     | .error (.escape "model:needs-oracle") => "skip"
     | .error e => " | ".intercalate (acc ++ ["err " ++ e.render])
+  -- the caller's ways of switching the framing between two prepare() calls
+  | 'B' :: ops, m, acc => runComposeOps z ops { m with bodyChunked := true } acc       -- message.body.chunked = True
+  | 'b' :: ops, m, acc => runComposeOps z ops { m with bodyChunked := false } acc      -- message.body.chunked = False
+  | 'H' :: ops, m, acc => runComposeOps z ops { m with headers := m.headers.put sTE schunked } acc   -- headers['Transfer-Encoding'] = 'chunked'
+  | 'h' :: ops, m, acc => runComposeOps z ops { m with headers := m.headers.del sTE } acc            -- headers.pop / transfer_encoding = None
+  | 'T' :: ops, m, acc =>
+    match setChunked m true with
+    | .ok m' => runComposeOps z ops m' acc
+    | .error (.escape "model:needs-oracle") => "skip"
+    | .error e => " | ".intercalate (acc ++ ["err " ++ e.render])
+  | 't' :: ops, m, acc =>
+    match setChunked m false with
+    | .ok m' => runComposeOps z ops m' acc
+    | .error (.escape "model:needs-oracle") => "skip"
+    | .error e => " | ".intercalate (acc ++ ["err " ++ e.render])
   | _ :: ops, m, acc => runComposeOps z ops m (acc ++ [renderFraming z m])
 
 def takePairs : Nat → List Bytes → Option (List (Bytes × Bytes) × List Bytes)
